@@ -472,6 +472,9 @@ class Exec:
             if bb.get("kind") == "CXXThisExpr":
                 key = "this." + n["name"]
                 if key not in env: raise TranslateError("member %s of `this` is not described in the manifest" % n["name"])
+                if isinstance(env[key], Obj):
+                    rt = getattr(self, "this_types", {}).get(n["name"]) or self.tu.ctype(n["type"])
+                    return ("mem", env[key], 0, rt)
                 return ("var", key)
             if n.get("isArrow"):
                 pv = self.rvalue(b, env)
@@ -577,6 +580,8 @@ class Exec:
         if k == "IntegerLiteral":
             ct = self.tu.ctype(n["type"])
             return Val(ct, const(int(n["value"]), self.W(ct.w)))
+        if k == "CXXBoolLiteralExpr":
+            return Val(TInt(8, False), const(1 if n.get("value") else 0, 8))
         if k == "CharacterLiteral":
             ct = self.tu.ctype(n["type"])
             return Val(ct, const(int(n["value"]), self.W(ct.w)))
@@ -635,6 +640,10 @@ class Exec:
                 return Val(ct, self.conv(v, ct.el).e)
             if ck == "NullToPointer":
                 return Val(ct, None, (None, 0))
+            if ck == "PointerToBoolean":
+                v = self.rvalue(sub, env)
+                if v.ptr is None: raise TranslateError("PointerToBoolean of a non-pointer")
+                return Val(TInt(8, False), const(0 if v.ptr[0] is None else 1, 8))
             if ck == "IntegralToBoolean":
                 v = self.rvalue(sub, env)
                 if not v.e.is_const(): raise TranslateError("symbolic boolean")
@@ -927,7 +936,7 @@ class Exec:
         return dst
 
     def run_function(self, f, args):
-        env = {}
+        env = dict(getattr(self, "this_env", {}))
         params = [c for c in f.get("inner", []) if c.get("kind") == "ParmVarDecl"]
         for p, a in zip(params, args):
             env[p["name"]] = a
@@ -951,6 +960,8 @@ class Exec:
                 if d["kind"] != "VarDecl": continue
                 ct = self.tu.ctype(d["type"])
                 init = [c for c in d.get("inner", []) if c.get("kind") != "FullComment"]
+                # C++: `T x;` of a trivially constructible aggregate carries a CXXConstructExpr without arguments
+                init = [c for c in init if not (c.get("kind") == "CXXConstructExpr" and not c.get("inner"))]
                 if isinstance(ct, (TArr, TRec)):
                     o = Obj(d["name"], ct.size(), None)
                     o.junk = var("junk_" + d["name"], 8 * ct.size())
@@ -1256,11 +1267,21 @@ def translate(tu, ent, registry, sigs, lane=None, probe=False):
             env["this." + fld] = Val(TPtr(el), None, (o, 0))
             if not spec.get("out"): sig.append((fld, 8 * spec["bytes"]))
             objs.append(("obj", fld, o, 8 * spec["bytes"]))
+        elif "obj" in spec:             # an embedded aggregate member
+            if "fields" in spec:
+                ex.this_types = getattr(ex, "this_types", {})
+                ex.this_types[fld] = TRec("struct", [(fn_, TArr(TInt(fb_, False), fc_) if fc_ > 1 else TInt(fb_, False)) for fn_, fb_, fc_ in spec["fields"]])
+            o = Obj(fld, spec["obj"], None if spec.get("out") else var(fld, 8 * spec["obj"]))
+            ex.param_objs[fld] = o
+            env["this." + fld] = o
+            if not spec.get("out"): sig.append((fld, 8 * spec["obj"]))
+            objs.append(("obj", fld, o, 8 * spec["obj"]))
         elif "const" in spec:
             env["this." + fld] = Val(TInt(spec.get("bits", 8), False), const(spec["const"], spec.get("bits", 8)))
         else:
             w_ = spec.get("bits", 8)
             env["this." + fld] = Val(TInt(w_, False), var(fld, w_)); sig.append((fld, w_))
+    ex.this_env = {k_: v_ for k_, v_ in env.items() if k_.startswith("this.")}
     outs = []     # (kind, name, E)
     piece = ent.get("piece")
     if piece is None:
